@@ -222,6 +222,24 @@ Definition corrective_f (sl_square sr_square leaf_square gkk slc_k src_k : T) (c
   let c := c -! (gkk +! sl_square -! two *! slc_k) /! F (cs_k - split_size) in
   c -! (gkk +! sr_square -! two *! src_k) /! F (cs_k - n_leaf + split_size).
 
+(* the `if` tests of compute_all_splits, named so that Proofs/KauriGain.v can tie each of them to the test
+   regenerated from the .pyx (Gen/KauriFormulas.v) *)
+Definition g_double_star (nc kmax n_leaf cs_k : nat) : bool := (nc <? kmax - 1) && negb (n_leaf =? cs_k).
+Definition g_star (nc kmax : nat) : bool := nc <? kmax.
+Definition g_switch (nc : nat) : bool := 2 <=? nc.
+Definition g_realloc (nc n_leaf cs_k : nat) : bool := (3 <=? nc) && negb (n_leaf =? cs_k).
+(* x > best_split.gain ; x >= best_split.gain ; a > b *)
+Definition t_gt (x y : T) : bool := nltb o y x.
+Definition t_ge (x y : T) : bool := nleb o y x.
+
+(* "Choose the best pair of top switches": (refurbish, k_left, k_right) *)
+Definition pair_select (tl tr : track) : option T * option nat * option nat :=
+  if negb (eq_optnat (top_k tl) (top_k tr))
+  then (add_opt (top_g tl) (top_g tr), top_k tl, top_k tr)
+  else if gt_opt (add_opt (top_g tl) (sec_g tr)) (add_opt (top_g tr) (sec_g tl))
+       then (add_opt (top_g tl) (sec_g tr), top_k tl, sec_k tr)
+       else (add_opt (top_g tr) (sec_g tl), sec_k tl, top_k tr).
+
 (* one iteration of `for k_prime in range(n_clusters)` : (best, left track, right track) *)
 Definition switch_step (fix8 : bool) (sl_square sr_square : T) (slc src : nat -> T) (cs : nat -> nat)
            (gamma : nat -> nat -> T) (n_leaf k leaf_id split_size feat : nat) (thr : T)
@@ -233,8 +251,8 @@ Definition switch_step (fix8 : bool) (sl_square sr_square : T) (slc src : nat ->
   let tl' := upd_track tl left_switch left_switch k' in
   let tr' := upd_track tr right_switch (if fix8 then right_switch else left_switch) k' in
   let best' :=
-    if nleb o (sp_gain best) left_switch || nleb o (sp_gain best) right_switch
-    then if nltb o right_switch left_switch
+    if t_ge left_switch (sp_gain best) || t_ge right_switch (sp_gain best)
+    then if t_gt left_switch right_switch
          then set_split left_switch leaf_id feat thr k' k
          else set_split right_switch leaf_id feat thr k k'
     else best in
@@ -246,39 +264,33 @@ Definition compute_all_splits (fix7 fix8 : bool) (best : split) (sl_square sr_sq
            (n_leaf nc kmax k leaf_id split_size feat : nat) (thr : T) : split :=
   (* double star *)
   let best :=
-    if (nc <? kmax - 1) && negb (n_leaf =? cs k) then
+    if g_double_star nc kmax n_leaf (cs k) then
       let g := double_star_f fix7 sl_square sr_square leaf_square (gamma k k) (slc k) (src k) (omega k feat)
                              (cs k) n_leaf split_size in
-      if nltb o (sp_gain best) g then set_split g leaf_id feat thr nc (S nc) else best
+      if t_gt g (sp_gain best) then set_split g leaf_id feat thr nc (S nc) else best
     else best in
   (* single star *)
   let best :=
-    if nc <? kmax then
+    if g_star nc kmax then
       let left_star := star_f sl_square (gamma k k) (slc k) (cs k) split_size in
       let right_star := star_f sr_square (gamma k k) (src k) (cs k) (n_leaf - split_size) in
-      if nltb o (sp_gain best) left_star || nltb o (sp_gain best) right_star
-      then if nltb o right_star left_star
+      if t_gt left_star (sp_gain best) || t_gt right_star (sp_gain best)
+      then if t_gt left_star right_star
            then set_split left_star leaf_id feat thr nc k
            else set_split right_star leaf_id feat thr k nc
       else best
     else best in
   (* switch and reallocation *)
-  if 2 <=? nc then
+  if g_switch nc then
     let '(best, tl, tr) :=
       fold_left (switch_step fix8 sl_square sr_square slc src cs gamma n_leaf k leaf_id split_size feat thr)
                 (seq 0 nc) (best, track0, track0) in
-    if (3 <=? nc) && negb (n_leaf =? cs k) then
+    if g_realloc nc n_leaf (cs k) then
       let corr := corrective_f sl_square sr_square leaf_square (gamma k k) (slc k) (src k) (cs k) n_leaf split_size in
-      let '(refurbish, k_left, k_right) :=
-        if negb (eq_optnat (top_k tl) (top_k tr))
-        then (add_opt (top_g tl) (top_g tr), top_k tl, top_k tr)
-        else if gt_opt (add_opt (top_g tl) (sec_g tr)) (add_opt (top_g tr) (sec_g tl))
-             then (add_opt (top_g tl) (sec_g tr), top_k tl, sec_k tr)
-             else (add_opt (top_g tr) (sec_g tl), sec_k tl, top_k tr) in
-      match refurbish, k_left, k_right with
-      | Some r, Some a, Some b =>
-          if nltb o (sp_gain best) (r +! corr) then set_split (r +! corr) leaf_id feat thr a b else best
-      | _, _, _ => best
+      match pair_select tl tr with
+      | (Some r, Some a, Some b) =>
+          if t_gt (r +! corr) (sp_gain best) then set_split (r +! corr) leaf_id feat thr a b else best
+      | _ => best
       end
     else best
   else best.
@@ -347,4 +359,4 @@ Definition find_best_asis (st : kstate) : split := find_best false false st.
 Definition find_best_fixed (st : kstate) : split := find_best true true st.
 
 End KauriGain.
-(* EXTRACT: kstate cand split sigma term members objective apply_split gain csize candidates best_spec_pair best_spec find_best find_best_asis find_best_fixed run_splits gains_along left_part right_part target_pairs *)
+(* EXTRACT: kstate cand split sigma term members objective apply_split gain csize candidates best_spec_pair best_spec find_best find_best_asis find_best_fixed compute_all_splits pair_select upd_track run_splits gains_along left_part right_part target_pairs *)
